@@ -50,7 +50,11 @@ func init() {
 }
 
 const (
-	hsInitTO     = 300 * time.Millisecond // InitializeTimeout of the judged end where it has to wait out a silent peer
+	// InitializeTimeout of the judged end where it has to wait out a silent peer. Not smaller: the exchange up to the
+	// fault step must never be slower than this on a loaded machine, otherwise the timer fires while the worker
+	// goroutine is still progressing (Q3 territory, and in one process a worker that outlives newSession could go on
+	// using a descriptor number that the finalizer has closed and another case reuses).
+	hsInitTO     = time.Second
 	hsLongTO     = 10 * time.Second       // InitializeTimeout where the failure must come from the fault itself, not from the timer
 	hsChildTO    = 2 * time.Second        // InitializeTimeout of the (not judged) library end that the harness kills or stalls
 	hsSlack      = 3 * time.Second        // allowed on top of InitializeTimeout
@@ -475,8 +479,8 @@ type hsJudge struct {
 	st         *hsStats
 	witness    map[string]interface{}
 	to         time.Duration // the judged end's InitializeTimeout
-	maySucceed bool   // a returned session is legal (then it has to end once the peer is gone)
-	whySucceed string // the reason, for the witness
+	maySucceed bool          // a returned session is legal (then it has to end once the peer is gone)
+	whySucceed string        // the reason, for the witness
 }
 
 // judgeReturn: did newSession return, in time, with the right kind of result? Returns false when the case is over.
@@ -756,6 +760,10 @@ func hsRunRawCase(c *checkCtx, cs hsCase, st *hsStats, noise bool) {
 	// census while the raw peer is still there (silent or closed, as the fault says)
 	j.judgeCensus(hsCensusSpec{token: token, sockIno: sockIno, wantMaps: raw.ownMappings(), wantMemfds: raw.ownMemfds(),
 		checkFiles: libIsClient}, "after the failed handshake")
+	if cs.Round == 0 && ((cs.Script == "c3m" && cs.Step == 4 && cs.Fault == "stall") || (cs.Script == "s3m" && cs.Step == 5 && cs.Fault == "wrongtype")) {
+		c.sample(map[string]interface{}{"case": cs.key(), "judged_end_error": r.err.Error(), "elapsed_ms": float64(r.elapsed.Microseconds()) / 1000,
+			"initialize_timeout_ms": to.Milliseconds(), "hook_points_hit": hits.list(), "raw_peer_received": raw.received(), "census": "clean"})
+	}
 }
 
 // ---------------------------------------------------------------------------------------------
@@ -1127,6 +1135,10 @@ func hsRunLibCase(c *checkCtx, cs hsCase, st *hsStats, noise bool) {
 	st.addElapsed("error after "+cs.Fault, r.elapsed)
 	c.count("judged_end_returned_error", 1)
 	j.judgeCensus(hsCensusSpec{token: token, sockIno: sockIno, checkFiles: yIsClient}, "after the failed handshake")
+	if cs.Round == 0 && cs.Step == 10 && cs.Fault == "die" {
+		c.sample(map[string]interface{}{"case": cs.key(), "judged_end_error": r.err.Error(), "elapsed_ms": float64(r.elapsed.Microseconds()) / 1000,
+			"initialize_timeout_ms": to.Milliseconds(), "hook_points_hit_by_judged_end": hits.list(), "child": seen, "census": "clean"})
+	}
 }
 
 // ---------------------------------------------------------------------------------------------
@@ -1345,8 +1357,10 @@ func hsRunPairing(c *checkCtx, cs hsCase, st *hsStats, noise bool) {
 	}
 	c.count("round_trip_through_shm", 1)
 	c.nontrivial(cs.key())
-	c.sample(map[string]interface{}{"case": cs.key(), "version_client": cliVer, "version_server": res.Version, "inodes": mine,
-		"handshake_ms": float64(el.Microseconds()) / 1000})
+	if cs.Round == 0 && cs.Transport == "unix" {
+		c.sample(map[string]interface{}{"case": cs.key(), "version_client": cliVer, "version_server": res.Version, "inodes": mine,
+			"handshake_ms": float64(el.Microseconds()) / 1000})
+	}
 }
 
 // ---------------------------------------------------------------------------------------------
@@ -1456,6 +1470,13 @@ func checkHandshake(c *checkCtx) {
 	c.assume("the end that is killed or stalled by the harness itself is not judged (its own stall is not 'a peer that stops answering'); " +
 		"the late-answer scenario Q3 is a probe only")
 	fenceInit()
+	c.maxSamples = 6
+	// leftovers of an earlier, killed run that happened to have this pid
+	if m, _ := filepath.Glob(shmPrefix() + "hs*"); len(m) > 0 {
+		for _, f := range m {
+			_ = os.Remove(f)
+		}
+	}
 	k := hsInstallCtl(c.seed)
 	defer uninstallCtl()
 	st := &hsStats{elapsed: map[string][]float64{}, hookSet: map[string]bool{}}
@@ -1479,33 +1500,46 @@ func checkHandshake(c *checkCtx) {
 		} else {
 			atomic.StoreInt32(&hsNoise, 0)
 		}
-		// the order of execution is shuffled per (seed, round): which cases overlap is part of the timing noise
+		// the order of execution is shuffled per (seed, round): which cases overlap is part of the timing noise.
+		// The success pairings run first and among themselves only.
 		order := caseRand(c.seed, 7000000+round).Perm(len(list))
-		jobs := make(chan hsCase)
-		var wg sync.WaitGroup
-		for w := 0; w < width; w++ {
-			wg.Add(1)
-			go func() {
-				defer wg.Done()
-				for cs := range jobs {
-					switch cs.Group {
-					case "pairing":
-						hsRunPairing(c, cs, st, noise)
-					case "raw":
-						hsRunRawCase(c, cs, st, noise)
-					case "lib":
-						hsRunLibCase(c, cs, st, noise)
-					}
-				}
-			}()
-		}
+		var first, rest []int
 		for _, i := range order {
-			cs := list[i]
-			cs.Round = round
-			jobs <- cs
+			if list[i].Group == "pairing" {
+				first = append(first, i)
+			} else {
+				rest = append(rest, i)
+			}
 		}
-		close(jobs)
-		wg.Wait()
+		run := func(idx []int) {
+			jobs := make(chan hsCase)
+			var wg sync.WaitGroup
+			for w := 0; w < width; w++ {
+				wg.Add(1)
+				go func() {
+					defer wg.Done()
+					for cs := range jobs {
+						switch cs.Group {
+						case "pairing":
+							hsRunPairing(c, cs, st, noise)
+						case "raw":
+							hsRunRawCase(c, cs, st, noise)
+						case "lib":
+							hsRunLibCase(c, cs, st, noise)
+						}
+					}
+				}()
+			}
+			for _, i := range idx {
+				cs := list[i]
+				cs.Round = round
+				jobs <- cs
+			}
+			close(jobs)
+			wg.Wait()
+		}
+		run(first)
+		run(rest)
 	}
 	hsRunQ3Probe(c)
 
